@@ -261,6 +261,9 @@ def gen(rng, tier, shard, batch):
     reqs += corner
     reqs += K.small_divisor_top_word_requests(rng, 20 if tier == "quick" else 60)
     reqs += K.api_corner_requests(rng, 6, G.fD) + K.hi_eq_divisor_requests(rng, 6, G.fD)
+    # quotient-digit estimate of 2^64 + 1 (divisor with normalised low word > high word; operand found by solving
+    # a * x mod yn in [(2^64 + 1) * yn1, yn) with a Euclid-like search)
+    reqs += K.est_gt_b_requests(rng, 6 if tier == "quick" else 20, G.fD)[0]
     reqs.append("mode RoundHalfEven")
     per_mode = N_RANDOM[tier] // 16
     for mode in MODES:
